@@ -307,8 +307,8 @@ func c12(r *Report, s *Sem) {
 				if ifi == nil {
 					return false
 				}
-				call, _, isNil, ok := errTest(ifi, k == 0)
-				return ok && call == op && isNil
+				isNil, ok := errTestOf(ifi, k == 0, op)
+				return ok && isNil
 			},
 			onExit: func(e ssa.Instruction, pred *ssa.BasicBlock) {
 				if ret, ok := e.(*ssa.Return); ok && retMayBeNilVia(ret, pred) {
